@@ -3,6 +3,7 @@
   Runs the *executable model definitions* (the same ones the theorems are about).
 -/
 import ConnectModel
+import Driver.ProtoOps
 open ConnectModel
 
 def hexArg (s : String) : Option Bytes := if s == "-" then some [] else fromHex s
@@ -234,6 +235,8 @@ def step (line : String) : String :=
     | _, _, _ => "bad-op"
   | "env.recv" :: args => envRecvOp args
   | "env.write" :: args => envWriteOp args
+  | "serve" :: args => ProtoOps.serveOp args
+  | "cdec" :: args => ProtoOps.cdecOp args
   | "disp" :: args => dispOp args
   | ["path", h] => match hexArg h with
     | some b => hexOut (extractProtoPath b)
